@@ -286,3 +286,67 @@ func parseGetValue(out string) []string {
 	}
 	return vals
 }
+
+// solveBatch decides a list of obligations of ONE Exec (in generation order) in a single
+// incremental z3 process: declarations and definitional assertions are added cumulatively and
+// each goal is checked inside push/pop.  Used for the cheap model-soundness range obligations.
+func solveBatch(obs []*Obligation, dir string, timeoutMS int) {
+	if len(obs) == 0 {
+		return
+	}
+	x := obs[0].x
+	var sb strings.Builder
+	sb.WriteString("(set-option :produce-models false)\n(set-logic ALL)\n")
+	sb.WriteString(fmt.Sprintf("(set-option :timeout %d)\n", timeoutMS))
+	sb.WriteString(smtPrelude())
+	for _, d := range x.defDecls {
+		sb.WriteString(d + "\n")
+	}
+	nd, na := 0, 0
+	for _, o := range obs {
+		for ; nd < o.nDecl; nd++ {
+			sb.WriteString(x.decls[nd] + "\n")
+		}
+		for ; na < o.nAssert; na++ {
+			sb.WriteString(x.asserts[na] + "\n")
+		}
+		sb.WriteString("(push 1)\n(assert " + o.pc + ")\n(assert (not " + o.goal + "))\n(check-sat)\n(pop 1)\n")
+	}
+	os.MkdirAll(dir, 0o755)
+	fname := strings.NewReplacer("/", "_", ":", "_", "*", "p", "(", "", ")", "", " ", "", "[", "_", "]", "", ",", "_", "=", "").Replace(obs[0].Name)
+	if len(fname) > 150 {
+		fname = fname[:150]
+	}
+	path := filepath.Join(dir, "batch_"+fname+".smt2")
+	if err := os.WriteFile(path, []byte(sb.String()), 0o644); err != nil {
+		return
+	}
+	defer os.Remove(path)
+	ctx, cancel := context.WithTimeout(context.Background(), time.Duration(len(obs)*timeoutMS/1000+30)*time.Second)
+	defer cancel()
+	cmd := exec.CommandContext(ctx, "z3-new", path)
+	var buf bytes.Buffer
+	cmd.Stdout = &buf
+	cmd.Stderr = &buf
+	t0 := time.Now()
+	_ = cmd.Run()
+	secs := time.Since(t0).Seconds()
+	var verdicts []string
+	for _, l := range strings.Split(buf.String(), "\n") {
+		l = strings.TrimSpace(l)
+		if l == "sat" || l == "unsat" || l == "unknown" || l == "timeout" {
+			verdicts = append(verdicts, l)
+		}
+	}
+	for i, o := range obs {
+		o.Secs = secs / float64(len(obs))
+		o.Solver = "z3-new"
+		if i < len(verdicts) && verdicts[i] == "unsat" {
+			o.Status = "proved"
+		} else if i < len(verdicts) && verdicts[i] == "sat" {
+			o.Status = "failed"
+		} else {
+			o.Status = "unknown"
+		}
+	}
+}
